@@ -49,6 +49,10 @@ def run(F, R):
     s2_send(F, R, M, roles, h12, h10)
     s3_receive(F, R, roles, h12, h10)
     s4_custody(F, R, M, roles)
+    # S5: a completion is consumed for the buffer the caller posted: wherever the network drivers complete a receive or
+    # transmit with a token read from the used ring, the buffer is looked up by that token (shared with C07.T5)
+    from .C07 import t5_token_provenance
+    t5_token_provenance(F, R, M, rule='S5', only=lambda bb: 'device::net' in bb['id'])
 
 
 def sizeofs(t):
